@@ -328,7 +328,11 @@ def canon(e, rename=None):
         if k == 'zero':
             return ('int', 0)
         if k in ('arrow', 'dot'):
+            if k == 'arrow' and x[1][0] == 'un' and x[1][1] == '&':
+                return ('dot', x[1][2], x[2])            # (&a)->f  is  a.f
             return x[:3]
+        if k == 'un' and x[1] == '*' and x[2][0] == 'un' and x[2][1] == '&':
+            return x[2][2]                              # *&a  is  a
         if k == 'cond' and x[1][0] == 'int':
             return x[2] if x[1][1] else x[3]
         if k == 'bin':
